@@ -26,5 +26,6 @@ TECHNIQUE = "stateful property-based testing of the real Consumer + KafkaClient 
 RULE = (
     "traces over one Consumer (buffer 64..1 MiB+1, optional maximum, retry delays 0.05..30 s, attempt limit 0..5, reset policy none/earliest/latest, auto-commit every n / every ms, with or without a group) on a 1-2 broker simulated cluster; the log holds plain and gzip-wrapper batches in message format 0 or 1 with compaction gaps, null values and messages larger than the buffer, and is appended to / head-truncated while the consumer runs; steps: start (numeric / earliest / latest / committed), deliver or hold a reply, fire a timer, complete an async processor call (ok / fail), commit, stop, shutdown, crash (drop the consumer object and client, keep the cluster), error codes on fetch / offsets / commit / coordinator lookup, connection drops, broker down/up, leader and coordinator moves. oracle: each OffsetCommit is judged when the consumer issues it (wrapped public client call): its offset is the end of a successfully completed invocation, equals the consumer's last processed offset at that instant, and no delivered message at or below it belongs to a failed, running or cancelled invocation; at most one commit request of a run is unanswered at a time (re-sends after a timeout excepted); whenever the consumer's last-committed attribute changes, the new value was acknowledged by a delivered commit reply or reported by a delivered offset-fetch reply; commits of a plain consumer carry generation -1 and empty member; a run started from the committed position delivers first exactly the first log record after the offset the store returned. non-trivial = several commits in one run, a crash between processing and commit followed by a restart, or a resume from a stored offset; distinct = distinct trace."
     ' A committed start must have asked the coordinator (OffsetFetch) before its first fetch; processor failures include CancelledError raised by the application.'
+    ' The committed number is also compared with the offset the broker stores for the last processed message (messages are identified by their unique values), so offsets mis-reported to the processor cannot hide a commit that is ahead.'
 )
 ASSUMPTIONS = ['simkafka models a 0.10-era broker incl. wrappers returned whole, mid-message cuts at max_bytes and long polls (DESIGN.md 2.4)', 'a reply counts as received only if delivered before the client-side deadline of its request; replies to a previous run or incarnation are attributed by correlation id and run', 'connect latency 5 ms, service latency per reply drawn; retry-delay expectations use the constants documented in afkak/consumer.py (factor 1.20205)']
